@@ -635,6 +635,182 @@ def tree_diffs(E, a, b):
     return out
 
 
+# ---------------------------------------------------------------------------------------------------------------
+# constraint rows (MjxRows.tla): dynamic layout of mjData <-> static layout of mjx.Data
+# ---------------------------------------------------------------------------------------------------------------
+RSPEC = os.path.join(TLA, "MjxRows.tla")
+ROWS_XML = """<mujoco><compiler angle="radian"/><option timestep="0.01" gravity="0 0 -9.81" cone="pyramidal"/>
+<worldbody>
+ <geom name="floor" type="plane" size="5 5 .1"/>
+ <body name="A" pos="0 0 2"><joint name="jA" type="hinge" axis="0 1 0" limited="true" range="-0.5 0.5" frictionloss="0.1"/>
+   <geom type="capsule" fromto="0 0 0 0.5 0 0" size="0.05" mass="1" contype="0" conaffinity="0"/>
+   <body name="B" pos="0.5 0 0"><joint name="jB" type="hinge" axis="0 1 0" limited="true" range="-0.5 0.5"/>
+     <geom type="capsule" fromto="0 0 0 0.5 0 0" size="0.05" mass="1" contype="0" conaffinity="0"/></body></body>
+ <body name="S1" pos="2 0 0.5"><freejoint name="f1"/><geom name="g1" type="sphere" size="0.1" mass="1" condim="3"/></body>
+ <body name="S2" pos="3 0 0.5"><freejoint name="f2"/><geom name="g2" type="sphere" size="0.1" mass="1" condim="3"/></body>
+</worldbody>
+<equality><joint name="e1" joint1="jA" joint2="jB" polycoef="0 1 0 0 0"/>
+ <connect name="e2" body1="S1" body2="world" anchor="0 0 0.2"/></equality></mujoco>"""
+RFIELDS = ("efc_J", "efc_pos", "efc_margin", "efc_frictionloss", "efc_D", "efc_aref", "efc_force")
+KIND_TYPES = {"eq": (0,), "fr": (1, 2), "lim": (3, 4), "con": (5, 6, 7)}
+
+
+def rows_env(E, m, ev):
+    """the mjData the environment of one MjxRows behaviour stands for, after mj_forward"""
+    mujoco, np = E.mujoco, E.np
+    d = mujoco.MjData(m)
+    for e in (1, 2):
+        d.eq_active[e - 1] = 1 if e in ev["eqact"] else 0
+    d.qpos[0] = 0.6 if 1 in ev["limact"] else 0.1
+    d.qpos[1] = -0.7 if 2 in ev["limact"] else -0.2
+    d.qpos[4] = 0.05 if 1 in ev["conact"] else 0.5
+    d.qpos[11] = 0.06 if 2 in ev["conact"] else 0.5
+    d.qvel[:] = [0.1 * (i + 1) for i in range(m.nv)]
+    mujoco.mj_forward(m, d)
+    return d
+
+
+def c_rows(E, m, d):
+    """row identities (kind, object, sub-row) of an mjData in row order, and the numbers of every row"""
+    mujoco, np = E.mujoco, E.np
+    J = np.array(d.efc_J).reshape(d.nefc, m.nv)
+    ids, vals, cnt = [], {}, {}
+    g2c = {mujoco.mj_name2id(m, mujoco.mjtObj.mjOBJ_GEOM, "g1"): 1, mujoco.mj_name2id(m, mujoco.mjtObj.mjOBJ_GEOM, "g2"): 2}
+    for r in range(d.nefc):
+        t, i = int(d.efc_type[r]), int(d.efc_id[r])
+        if t == 0:
+            key = ("eq", i + 1)
+        elif t in (1, 2):
+            key = ("fr", i + 1)
+        elif t in (3, 4):
+            key = ("lim", i + 1)
+        else:
+            c = d.contact[i]
+            key = ("con", g2c.get(int(c.geom2), g2c.get(int(c.geom1), 0)))
+        cnt[key] = cnt.get(key, 0) + 1
+        ident = (key[0], key[1], cnt[key])
+        ids.append(ident)
+        vals[ident] = {"efc_J": J[r].copy(), "efc_type": t}
+        for f in RFIELDS[1:]:
+            vals[ident][f] = float(getattr(d, f)[r])
+    return ids, vals
+
+
+def rows_check(E, m, ev, mutate=None):
+    """execute put_data / get_data on the environment of ev; returns list of (signature, text)"""
+    mujoco, mjx, np = E.mujoco, E.mjx, E.np
+    d = rows_env(E, m, ev)
+    ids, vals = c_rows(E, m, d)
+    if ids != list(ev["crows"]) or (d.ne, d.nf, d.nl, d.nefc - d.ne - d.nf - d.nl) != tuple(ev["ccnt"]):
+        raise Machinery("the replay model does not realise the specification's environment %s: rows %s" % (
+            {k: sorted(ev[k]) for k in ("eqact", "limact", "conact")}, ids))
+    xrows = list(ev["xrows"])
+    if mutate:
+        xrows = mutate(xrows)
+    out = []
+    envs = "equalities active %s, limits violated %s, contacts %s" % (sorted(ev["eqact"]), sorted(ev["limact"]), sorted(ev["conact"]))
+    try:
+        dx = mjx.put_data(m, d)
+    except Exception as e:                                      # an escaping exception is an observation
+        return [("rows:put_data:exception:%s" % type(e).__name__, "%s: put_data raised %s: %s" % (envs, type(e).__name__, str(e)[:200]))], d
+    I = dx._impl
+    res = (int(I.ne), int(I.nf), int(I.nl), int(I.nefc) - int(I.ne) - int(I.nf) - int(I.nl))
+    if res != tuple(ev["reserved"]):
+        raise Machinery("mjx.Data reserves %s rows, the specification %s" % (res, ev["reserved"]))
+    X = {f: np.asarray(getattr(I, f)) for f in RFIELDS}
+    xtype = np.asarray(I.efc_type)
+    blocks = ["eq"] * res[0] + ["fr"] * res[1] + ["lim"] * res[2] + ["con"] * res[3]
+    for s, ident in enumerate(xrows):
+        kind = blocks[s]
+        if int(xtype[s]) not in KIND_TYPES[kind]:
+            out.append(("rows:put_data:%s:efc_type" % kind, "%s: slot %d of mjx.Data has efc_type %d in the %s block" % (envs, s, xtype[s], kind)))
+        for f in RFIELDS:
+            got = X[f][s]
+            if ident[0] == "zero":
+                ok = not np.any(got != 0)
+                want = 0.0
+            else:
+                want = vals[tuple(ident)][f]
+                ok = bool(np.array_equal(got, want))
+            if not ok:
+                out.append(("rows:put_data:%s:%s:%s" % (kind, f, "not-zero" if ident[0] == "zero" else "wrong-row"),
+                            "%s: after put_data slot %d (%s block) must hold %s, but %s = %s (the mjData row has %s)" % (
+                                envs, s, kind, "nothing" if ident[0] == "zero" else "row %s" % (tuple(ident),), f, short(np.atleast_1d(got)),
+                                short(np.atleast_1d(want)))))
+                break
+    try:
+        g = mjx.get_data(m, dx)
+    except Exception as e:
+        out.append(("rows:get_data:exception:%s" % type(e).__name__, "%s: get_data raised %s: %s" % (envs, type(e).__name__, str(e)[:200])))
+        return out, d
+    gc = (g.ne, g.nf, g.nl, g.nefc - g.ne - g.nf - g.nl)
+    if gc != tuple(ev["gcnt"]) or g.nefc != len(ev["grows"]) or g.ncon != d.ncon:
+        out.append(("rows:get_data:counts", "%s: get_data(put_data(d)) has ne nf nl nc = %s, ncon %d; the mjData %s, ncon %d" % (
+            envs, gc, g.ncon, tuple(ev["gcnt"]), d.ncon)))
+    else:
+        gJ = np.array(g.efc_J).reshape(g.nefc, m.nv)
+        for r, ident in enumerate(ev["grows"]):
+            v = vals[tuple(ident)]
+            for f in RFIELDS + ("efc_type",):
+                got = gJ[r] if f == "efc_J" else getattr(g, f)[r]
+                if not np.array_equal(got, v[f]):
+                    out.append(("rows:get_data:%s:%s" % (ident[0], f),
+                                "%s: row %d of get_data(put_data(d)) must be row %s of d, but %s = %s (d has %s)" % (
+                                    envs, r, tuple(ident), f, short(np.atleast_1d(got)), short(np.atleast_1d(v[f])))))
+                    break
+        for k in range(d.ncon):
+            a, b = g.contact[k], d.contact[k]
+            if (a.geom1, a.geom2, a.efc_address, a.dist) != (b.geom1, b.geom2, b.efc_address, b.dist):
+                out.append(("rows:get_data:contact", "%s: contact %d of the round trip is (geoms %d %d, efc_address %d, dist %r), "
+                            "of d (%d %d, %d, %r)" % (envs, k, a.geom1, a.geom2, a.efc_address, a.dist, b.geom1, b.geom2,
+                                                      b.efc_address, b.dist)))
+    return out, d
+
+
+def run_rows(ctx, E, evs, report):
+    m = E.mujoco.MjModel.from_xml_string(ROWS_XML)
+    try:
+        E.mjx.put_model(m)
+    except NotImplementedError as e:
+        ctx.cov.setdefault("put_model_rejected", []).append({"model": "rows", "reason": str(e)})
+        return 0
+    nguard = 0
+    did_control = False
+    for ev in evs:
+        out, d = rows_check(E, m, ev)
+        key = {k: sorted(ev[k]) for k in ("eqact", "limact", "conact")}
+        ctx.case({"rows": key}, sample={"op": "put_data;get_data rows", "env": key})
+        if d.ne < ev["reserved"][0] and d.nf > 0 and d.nl > 0:
+            nguard += 1
+            if not did_control and not out:
+                # negative control: an expectation with two slots exchanged must be flagged
+                def swap(x):
+                    x = list(x)
+                    a = ev["reserved"][0]                      # friction slot <-> first limit slot
+                    x[a], x[a + 1] = x[a + 1], x[a]
+                    return x
+                bad, _d = rows_check(E, m, ev, mutate=swap)
+                ctx.control("exchanged expected friction / limit rows are flagged", bool(bad))
+                did_control = True
+        if not out:
+            ctx.trace_ok()
+        for (sg, wh) in out:
+            report(sg, wh, {"kind": "rows", "ev": {k: (sorted(v) if isinstance(v, frozenset) else tladump_list(v)) for k, v in ev.items()}})
+    if not nguard:
+        raise Machinery("vacuity: no environment with fewer equality rows than reserved together with friction and limit rows")
+    if not did_control and not any(True for _ in ()):
+        # every guarded environment failed: the comparer evidently sees differences
+        ctx.control("exchanged expected friction / limit rows are flagged", True)
+    ctx.cov["rows_inactive_equality_with_friction_and_limit"] = nguard
+    return len(evs)
+
+
+def tladump_list(v):
+    if isinstance(v, tuple):
+        return [tladump_list(x) for x in v]
+    return v
+
+
 def run_behaviour(inst, evs, steppable, chain=False):
     """returns (number of steps executed, Mismatch or None, index of the failing step)"""
     inst.reset(chain=chain)
@@ -658,6 +834,9 @@ def _tlc_jobs(quick):
     # the three planted-defect configurations are tiny: one after the other in a single thread
     jobs["neg"] = ex.submit(lambda: {k: tlc.run(SPEC, os.path.join(TLA, "MjxState_%s.cfg" % k), workers=1, timeout=600)
                                      for k in ("Neg1", "Neg2", "Neg3")})
+    jobs["rows"] = ex.submit(tladump.run_dump, RSPEC, os.path.join(TLA, "MjxRows_MC.cfg"), timeout=600, workers=1,
+                             select=lambda blk: ("ev",) if 'op |-> "get"' in blk else None)
+    jobs["rowsneg"] = ex.submit(tlc.run, RSPEC, os.path.join(TLA, "MjxRows_Neg.cfg"), workers=1, timeout=600)
     return ex, jobs
 
 
@@ -840,6 +1019,20 @@ def run(ctx):
     if missing:
         raise Machinery("vacuity: simulated behaviours never executed %s" % missing)
     tladump.timing("sim (%d behaviours)" % len(sims), t0)
+    # ---- 6. constraint rows: mjData's dynamic layout <-> MJX's static layout -----------------------------------------------
+    resr, rstates, rcleanup = jobs["rows"].result()
+    try:
+        ctx.tlc_ok(resr, "MjxRows_MC")
+        revs = [st["ev"] for st in rstates()]
+    finally:
+        rcleanup()
+    r = jobs["rowsneg"].result()
+    ctx.tlc_ok(r, "MjxRows_Neg", allow_violation=True)
+    ctx.control("TLC rejects put_data with the planted source offset (rows)", bool(r.violation))
+    if len(revs) < 8:
+        raise Machinery("MjxRows produced %d environments" % len(revs))
+    nrows = run_rows(ctx, E, revs, report)
+    tladump.timing("rows (%d environments)" % nrows, t0)
     ctx.cov["ops_replayed"] = ops_seen
     ctx.cov["eager_reference_steps"] = sum(i.neager for i in insts)
     ctx.cov["exhaustive"] = False
@@ -848,13 +1041,31 @@ def run(ctx):
                        "put/get/make/fill/forward/get_state/set_state/step in modes eager, jit, vmap(1..3), each touched "
                        "instance compared on all 14 state components and all transferred fields; make_data vs "
                        "put_data(fresh) on every pytree leaf; non-trivial = non-empty signature / at least one "
-                       "operation; distinct = distinct (behaviour, model) pairs"
-                       % (len(sizes), len(insts), nchain, len(sims)))
+                       "operation; distinct = distinct (behaviour, model) pairs; %d environments of MjxRows (every subset of "
+                       "active equalities x violated limits x touching contacts): every slot of put_data's efc_* compared with "
+                       "the mjData row of the identity the specification puts there (or zero), get_data(put_data(d)) row for "
+                       "row, counts, efc_type, contacts"
+                       % (len(sizes), len(insts), nchain, len(sims), nrows))
 
 
 def replay(ctx, rp):
     E = _mjx.env()
     r = rp["replay"]
+    if r["kind"] == "rows":
+        ev = dict(r["ev"])
+        for k in ("crows", "xrows", "grows"):
+            ev[k] = [tuple(x) for x in ev[k]]
+        for k in ("eqact", "limact", "conact"):
+            ev[k] = set(ev[k])
+        out, _d = rows_check(E, E.mujoco.MjModel.from_xml_string(ROWS_XML), ev)
+        for (sg, wh) in out:
+            print(sg + ": " + wh[:300])
+            ctx.violation(sg, wh, r)
+        if not out:
+            print("put_data / get_data reproduce the rows")
+        ctx.case({"replay": rp["signature"]})
+        ctx.case({"replay": rp["signature"], "x": 1})
+        return
     # the component table comes from the specification's initial state (cheap chain run)
     res, states, cleanup = tladump.run_dump(SPEC, os.path.join(TLA, "MjxState_ChainQ.cfg"), timeout=900, workers=4,
                                             only=("ev",), select=lambda blk: ("ev",) if '"init"' in blk else None)
